@@ -1434,7 +1434,7 @@ func replayC08(ctx *Ctx, rep map[string]any) *Result {
 		c08CheckOnly(ctx, res, dir, variant, c08UnhexArgv(rep["base"]), c08UnhexArgv(rep["only"]))
 	case "audit":
 		c08CheckAudit(ctx, res)
-	case "logger", "logger-pres":
+	case "logger", "logger-pres", "logger-only":
 		c08ReplayLogger(ctx, res, rep)
 	default:
 		res.Broken = fmt.Sprintf("unknown replay kind %v", rep["kind"])
